@@ -141,6 +141,47 @@ Theorem C30_memory_section_exact :
 Proof. exact memory_section_exact. Qed.
 Print Assumptions C30_memory_section_exact.
 
+(* ---- end to end for added globals on a module whose global ids are not pending recalculation ---- *)
+(* (every freshly parsed module: C30_base_globals_clean; preserved by the call itself)  The encoded module is the old
+   one with exactly one more global, of exactly the requested type and initial value (references through the id map),
+   every other section and every existing global untouched; the returned id is mapped to itself. *)
+Theorem C30_add_global_end_to_end :
+  forall s fp t e s1 r dc sites o,
+  s_recalc (m_g (a_m s)) = false -> ids_pos (s_items (m_g (a_m s))) -> fresh_fp s fp ->
+  astep s (OAddGlobal fp t e) = Ok (s1, r) ->
+  aencode s dc sites = Ok o ->
+  forall lf mf e', index_space (m_f (a_m s)) = Ok (lf, mf) ->
+  fix_init mf (mapping (s_items (m_g (a_m s1)))) e = Ok e' ->
+  exists t', gty_conv t = Ok t'
+  /\ r = Some (lenN (s_items (m_g (a_m s))))
+  /\ lookup (mapping (s_items (m_g (a_m s1)))) (lenN (s_items (m_g (a_m s)))) = Some (lenN (s_items (m_g (a_m s))))
+  /\ aencode s1 dc sites
+     = Ok (mkO (ob_imports o) (ob_funcs o) (ob_globals o ++ [mkOG t' (enc_init e')]) (ob_mems o) (ob_data o)
+               (ob_exports o) (ob_sites o) (ob_dcount o))
+  /\ s_recalc (m_g (a_m s1)) = false /\ ids_pos (s_items (m_g (a_m s1))).
+Proof. exact add_global_end_to_end. Qed.
+Print Assumptions C30_add_global_end_to_end.
+
+(* any number of add_global calls with index-free initialisers (all constant forms, ref.null): all succeed, return
+   consecutive ids, and the encoded module is the old one followed by exactly the requested globals, in order *)
+Theorem C30_add_globals_sequence :
+  forall (adds : list greq) s rets dc sites o lf mf,
+  s_recalc (m_g (a_m s)) = false -> ids_pos (s_items (m_g (a_m s))) -> fresh_all s adds ->
+  Forall req_ok adds ->
+  aencode s dc sites = Ok o -> index_space (m_f (a_m s)) = Ok (lf, mf) ->
+  exists s',
+    arun s (map op_of adds) rets = (s', rets ++ idsN (lenN (s_items (m_g (a_m s)))) (length adds), false)
+    /\ aencode s' dc sites
+       = Ok (mkO (ob_imports o) (ob_funcs o) (ob_globals o ++ map render adds) (ob_mems o) (ob_data o)
+                 (ob_exports o) (ob_sites o) (ob_dcount o)).
+Proof. exact add_globals_sequence. Qed.
+Print Assumptions C30_add_globals_sequence.
+
+Theorem C30_base_globals_clean :
+  forall c : acase, s_recalc (m_g (a_m (abase c))) = false /\ ids_pos (s_items (m_g (a_m (abase c)))).
+Proof. exact base_globals_clean. Qed.
+Print Assumptions C30_base_globals_clean.
+
 (* ---- checker soundness ---- *)
 (* agreement is equality: on a case where the implementation agrees with the model, the observed returned ids,
    panic flag and decoded output are the model's *)
@@ -223,3 +264,17 @@ Example C30_wf_nonvacuous :
                     IVal (VF64 18444492273895866368%Z); IVal (VV128 340282366920938463463374607431768211455%Z);
                     IGlobal 3; IRefFunc 7; IRefNull 0] = true.
 Proof. vm_compute. reflexivity. Qed.
+(* the hypotheses of C30_add_globals_sequence are satisfiable by a non-trivial request list on a non-trivial base *)
+Example C30_sequence_nonvacuous :
+  let c := self_a [mkBI 1 1 (IDGlobal i32g)] [99] [(5, mkGP (mkGT 2 true false) (Some [IVal (VF32 2143289344%Z)]))] [] [] [] false [] [] in
+  let adds : list greq := [(10, mkGT 4 false false, [IVal (VV128 340282366920938463463374607431768211455%Z)]);
+                           (11, mkGT 7 true false, [IRefNull 0]); (12, mkGT 3 false true, [IVal (VF64 9221120237041090561%Z)])] in
+  fresh_all (abase c) adds /\ Forall req_ok adds
+  /\ map render adds = [mkOG (mkGT 4 false false) [CV128 (-1)%Z]; mkOG (mkGT 5 true false) [CRefNull 0];
+                        mkOG (mkGT 3 false true) [CF64 9221120237041090561%Z]].
+Proof.
+  cbn zeta. split; [|split].
+  - apply fresh_allb_ok. vm_compute. reflexivity.
+  - apply req_okb_ok. vm_compute. reflexivity.
+  - reflexivity.
+Qed.
